@@ -35,6 +35,10 @@ What does not hold (the property as stated, "every prefix"):
   re-queueing done by the resume (`from_serialized` + `rewind_in_progress`) is not in it: replaying
   the whole log at a second restart meets a worker id that is not in progress and raises.
 
+* `C13_refuted_requirements` — `wait_for_event(…, requirements=…)`: the persisted `AddWaiter` loses
+  its requirements; replay resolves the waiter with any logged event of the awaited type.  All
+  positive theorems therefore carry the guard `C13.NoRequirements` (no such waiter was registered).
+
 Selection on server start: `C13_start_picks`, `C13_restart_at_most_once`.
 -/
 set_option linter.unusedVariables false
@@ -49,12 +53,23 @@ def C13.live (cfg : Cfg) (pol : Policy) (now : Int) (e : Ev) (timeout : Option N
 /-- the persisted step-result ticks are what the step wrapper builds: at most one outcome each -/
 def C13.WellFormedLog (r : Runner) : Prop := ∀ t ∈ ticksOf r.log, t.oneOutcome = true
 
+/-- no `wait_for_event` with `requirements` was registered so far: the stored form of every logged
+tick is the tick itself (requirements are the one thing of a tick the store does not keep) -/
+def C13.NoRequirements (r : Runner) : Prop := ∀ t ∈ ticksOf r.log, t.persist = t
+
+theorem C13.persisted_eq {r : Runner} (h : C13.NoRequirements r) : persistedTicks r.log = ticksOf r.log := by
+  unfold persistedTicks ticksOf
+  apply List.map_congr_left
+  intro p hp
+  exact h p.1 (List.mem_map_of_mem hp)
+
 /-! ## replay reproduces the live state, at every prefix -/
 
 theorem C13_replay_reproduces_state (cfg : Cfg) (pol : Policy) (hpol : TimeFree pol) (now : Int) (e : Ev)
     (timeout : Option Nat) (acts : List Act) (now0 : Int) (clk : Nat → Int)
-    (hlog : C13.WellFormedLog (C13.live cfg pol now e timeout acts)) :
-    ∃ rep, replayTicks cfg pol initState now0 clk (ticksOf (C13.live cfg pol now e timeout acts).log) = some rep ∧
+    (hlog : C13.WellFormedLog (C13.live cfg pol now e timeout acts))
+    (hreq : C13.NoRequirements (C13.live cfg pol now e timeout acts)) :
+    ∃ rep, replayTicks cfg pol initState now0 clk (persistedTicks (C13.live cfg pol now e timeout acts).log) = some rep ∧
       SimSt rep.st (C13.live cfg pol now e timeout acts).st ∧
       roundtrip cfg rep.st = roundtrip cfg (C13.live cfg pol now e timeout acts).st ∧
       ExitRel rep.exit (C13.live cfg pol now e timeout acts).outcome := by
@@ -69,6 +84,7 @@ theorem C13_replay_reproduces_state (cfg : Cfg) (pol : Policy) (hpol : TimeFree 
   have hl := liveInv_run cfg hpol clk _ acts _ h0
   obtain ⟨rep, h1, h2, h3⟩ := hl hlog
   refine ⟨rep, ?_, h2, roundtrip_sim cfg h2, h3⟩
+  rw [C13.persisted_eq hreq]
   unfold replayTicks
   simp only [hr0.2, List.contains_nil, Bool.false_eq_true, if_false]
   exact h1
@@ -110,10 +126,12 @@ run was persisted (and before the handler row was updated), the restart finalise
 exactly the status, result and error of the live outcome, and runs nothing. -/
 theorem C13_finalize_matches_live (cfg : Cfg) (pol : Policy) (hpol : TimeFree pol) (now : Int) (e : Ev)
     (timeout : Option Nat) (acts : List Act) (now0 : Int) (clk : Nat → Int) (nowR : Int) (mkStart : Option Ev)
-    (timeout' : Option Nat) (hlog : C13.WellFormedLog (C13.live cfg pol now e timeout acts)) (o : Outcome) (f : Final)
+    (timeout' : Option Nat) (hlog : C13.WellFormedLog (C13.live cfg pol now e timeout acts))
+    (hreq : C13.NoRequirements (C13.live cfg pol now e timeout acts)) (o : Outcome) (f : Final)
     (hout : (C13.live cfg pol now e timeout acts).outcome = some o) (hf : C13.finalOfOutcome o = some f) :
-    restartRun cfg pol none (ticksOf (C13.live cfg pol now e timeout acts).log) now0 clk nowR mkStart timeout' = .finalize f := by
-  obtain ⟨rep, h1, _, _, h4⟩ := C13_replay_reproduces_state cfg pol hpol now e timeout acts now0 clk hlog
+    restartRun cfg pol none (persistedTicks (C13.live cfg pol now e timeout acts).log) now0 clk nowR mkStart timeout' = .finalize f := by
+  obtain ⟨rep, h1, _, _, h4⟩ := C13_replay_reproduces_state cfg pol hpol now e timeout acts now0 clk hlog hreq
+  rw [C13.persisted_eq hreq] at h1 ⊢
   rw [hout] at h4
   cases hx : rep.exit with
   | none =>
@@ -230,13 +248,15 @@ mailbox is empty. -/
 theorem C13_state_kept (cfg : Cfg) (hwf : cfg.WF) (pol : Policy) (hpol : TimeFree pol) (now : Int) (e : Ev)
     (timeout : Option Nat) (acts : List Act) (now0 : Int) (clk : Nat → Int) (nowR : Int) (mkStart : Option Ev)
     (timeout' : Option Nat) (hlog : C13.WellFormedLog (C13.live cfg pol now e timeout acts))
+    (hreq : C13.NoRequirements (C13.live cfg pol now e timeout acts))
     (hout : (C13.live cfg pol now e timeout acts).outcome = none)
     (hticks : ticksOf (C13.live cfg pol now e timeout acts).log ≠ [])
     (hrun : (C13.live cfg pol now e timeout acts).st.isRunning = true) :
-    ∃ R, restartRun cfg pol none (ticksOf (C13.live cfg pol now e timeout acts).log) now0 clk nowR mkStart timeout' = .resume R ∧
+    ∃ R, restartRun cfg pol none (persistedTicks (C13.live cfg pol now e timeout acts).log) now0 clk nowR mkStart timeout' = .resume R ∧
       ResumedShape cfg (roundtrip cfg (C13.live cfg pol now e timeout acts).st) nowR timeout' R ∧
       C13.StateKept cfg (C13.live cfg pol now e timeout acts).st R := by
-  obtain ⟨rep, h1, h2, h3, h4⟩ := C13_replay_reproduces_state cfg pol hpol now e timeout acts now0 clk hlog
+  obtain ⟨rep, h1, h2, h3, h4⟩ := C13_replay_reproduces_state cfg pol hpol now e timeout acts now0 clk hlog hreq
+  rw [C13.persisted_eq hreq] at h1 ⊢
   rw [hout] at h4
   have hx : rep.exit = none := h4.none_of_running
   generalize hr : C13.live cfg pol now e timeout acts = r at *
@@ -269,23 +289,23 @@ def C13_statement (guard : Runner → Prop) : Prop :=
     ticksOf (C13.live cfg pol now e timeout acts).log ≠ [] →
     (C13.live cfg pol now e timeout acts).st.isRunning = true →
     guard (C13.live cfg pol now e timeout acts) →
-    ∃ R, restartRun cfg pol none (ticksOf (C13.live cfg pol now e timeout acts).log) now0 clk nowR mkStart timeout' = .resume R ∧
+    ∃ R, restartRun cfg pol none (persistedTicks (C13.live cfg pol now e timeout acts).log) now0 clk nowR mkStart timeout' = .resume R ∧
       C13.NothingLost cfg (C13.live cfg pol now e timeout acts) R
 
 /-- the stop points at which the dead process held nothing but reducer state: empty tick buffer,
 empty mailbox, no delayed retry or waiter timeout pending -/
 def C13.Quiescent (r : Runner) : Prop :=
-  r.buf = [] ∧ r.mailbox = [] ∧ ∀ tm ∈ r.heap, tm.carriesWork = false
+  r.buf = [] ∧ r.mailbox = [] ∧ (∀ tm ∈ r.heap, tm.carriesWork = false) ∧ C13.NoRequirements r
 
 /-- **C13, the part that holds**: restarting from a prefix at which the live tick buffer and
 mailbox were empty and no timer carried work loses nothing. -/
 theorem C13_quiescent_prefix_partial : C13_statement C13.Quiescent := by
   intro cfg hwf pol hpol now e timeout acts now0 clk nowR mkStart timeout' hlog hout hticks hrun hq
-  obtain ⟨R, h1, _, h3⟩ := C13_state_kept cfg hwf pol hpol now e timeout acts now0 clk nowR mkStart timeout' hlog hout hticks hrun
+  obtain ⟨R, h1, _, h3⟩ := C13_state_kept cfg hwf pol hpol now e timeout acts now0 clk nowR mkStart timeout' hlog hq.2.2.2 hout hticks hrun
   refine ⟨R, h1, h3, ?_, ?_, ?_⟩
   · intro t ht; rw [hq.1] at ht; cases ht
   · intro t ht; rw [hq.2.1] at ht; cases ht
-  · intro tm htm hw; rw [hq.2.2 tm htm] at hw; cases hw
+  · intro tm htm hw; rw [hq.2.2.1 tm htm] at hw; cases hw
 
 /-! ### refutation 1 (F12): the output of a persisted step result is still a command -/
 
@@ -307,7 +327,7 @@ theorem C13.witnessF12 :
     (C13.live C13.cfg2 C13.pol0 0 C13.startEv none C13.actsF12).buf =
         [.addEvent { ev := C13.mid } none, .idleCheck] ∧
       (ticksOf (C13.live C13.cfg2 C13.pol0 0 C13.startEv none C13.actsF12).log).length = 2 ∧
-      (match restartRun C13.cfg2 C13.pol0 none (ticksOf (C13.live C13.cfg2 C13.pol0 0 C13.startEv none C13.actsF12).log)
+      (match restartRun C13.cfg2 C13.pol0 none (persistedTicks (C13.live C13.cfg2 C13.pol0 0 C13.startEv none C13.actsF12).log)
               7 (fun _ => 7) 7 none none with
         | .resume R => (R.buf, R.running, R.heap.length, R.mailbox, pendingEvs (R.st.workers 0), pendingEvs (R.st.workers 2))
         | _ => ([.idleCheck], [], 1, [], [], [])) = ([], [], 0, [], [], []) := by
@@ -343,7 +363,7 @@ def C13.actsSent : List Act :=
 theorem C13.witnessSent :
     (C13.live C13.cfg2 C13.pol0 0 C13.startEv none C13.actsSent).buf = [] ∧
       (C13.live C13.cfg2 C13.pol0 0 C13.startEv none C13.actsSent).mailbox = [.addEvent { ev := C13.sent } none] ∧
-      (match restartRun C13.cfg2 C13.pol0 none (ticksOf (C13.live C13.cfg2 C13.pol0 0 C13.startEv none C13.actsSent).log)
+      (match restartRun C13.cfg2 C13.pol0 none (persistedTicks (C13.live C13.cfg2 C13.pol0 0 C13.startEv none C13.actsSent).log)
               7 (fun _ => 7) 7 none none with
         | .resume R => (R.buf, R.running, R.mailbox, pendingEvs (R.st.workers 2))
         | _ => ([.idleCheck], [], [], [])) = ([], [], [], []) := by
@@ -375,11 +395,11 @@ def C13_statement_second_restart : Prop :=
     C13.WellFormedLog (C13.live cfg pol now e none acts1) →
     (C13.live cfg pol now e none acts1).outcome = none →
     C13.Quiescent (C13.live cfg pol now e none acts1) →
-    restartRun cfg pol none (ticksOf (C13.live cfg pol now e none acts1).log) now0 clk nowR none none = .resume R1 →
+    restartRun cfg pol none (persistedTicks (C13.live cfg pol now e none acts1).log) now0 clk nowR none none = .resume R1 →
     C13.WellFormedLog (Runner.run cfg pol R1 acts2) →
     (Runner.run cfg pol R1 acts2).outcome = none →
     ∃ R2, restartRun cfg pol none
-        (ticksOf (C13.live cfg pol now e none acts1).log ++ ticksOf (Runner.run cfg pol R1 acts2).log)
+        (persistedTicks (C13.live cfg pol now e none acts1).log ++ persistedTicks (Runner.run cfg pol R1 acts2).log)
         now0 clk nowR none none = .resume R2 ∧
       C13.StateKept cfg (Runner.run cfg pol R1 acts2).st R2
 
@@ -399,7 +419,7 @@ def C13.acts3a : List Act :=
 def C13.acts3b : List Act := [.workerDone 2 0 [.result none], .drain]
 
 def C13.R1 : Runner :=
-  match restartRun C13.cfg3 C13.pol0 none (ticksOf (C13.live C13.cfg3 C13.pol0 0 C13.startEv none C13.acts3a).log)
+  match restartRun C13.cfg3 C13.pol0 none (persistedTicks (C13.live C13.cfg3 C13.pol0 0 C13.startEv none C13.acts3a).log)
       7 (fun _ => 7) 7 none none with
   | .resume R => R
   | _ => { st := initState }
@@ -413,17 +433,17 @@ theorem C13.witness3 :
     ticksOf (Runner.run C13.cfg3 C13.pol0 C13.R1 C13.acts3b).log = [.stepResult 2 0 C13.e10 [.result none]] ∧
     (Runner.run C13.cfg3 C13.pol0 C13.R1 C13.acts3b).outcome = none ∧
     (match restartRun C13.cfg3 C13.pol0 none
-        (ticksOf (C13.live C13.cfg3 C13.pol0 0 C13.startEv none C13.acts3a).log ++
-          ticksOf (Runner.run C13.cfg3 C13.pol0 C13.R1 C13.acts3b).log) 7 (fun _ => 7) 7 none none with
+        (persistedTicks (C13.live C13.cfg3 C13.pol0 0 C13.startEv none C13.acts3a).log ++
+          persistedTicks (Runner.run C13.cfg3 C13.pol0 C13.R1 C13.acts3b).log) 7 (fun _ => 7) 7 none none with
       | .markFailed e => some e
       | _ => none) = some ErrMsg.resumeError := by
   decide
 
 theorem C13.R1_eq : restartRun C13.cfg3 C13.pol0 none
-    (ticksOf (C13.live C13.cfg3 C13.pol0 0 C13.startEv none C13.acts3a).log) 7 (fun _ => 7) 7 none none = .resume C13.R1 := by
+    (persistedTicks (C13.live C13.cfg3 C13.pol0 0 C13.startEv none C13.acts3a).log) 7 (fun _ => 7) 7 none none = .resume C13.R1 := by
   unfold C13.R1
   have : (match restartRun C13.cfg3 C13.pol0 none
-      (ticksOf (C13.live C13.cfg3 C13.pol0 0 C13.startEv none C13.acts3a).log) 7 (fun _ => 7) 7 none none with
+      (persistedTicks (C13.live C13.cfg3 C13.pol0 0 C13.startEv none C13.acts3a).log) 7 (fun _ => 7) 7 none none with
     | .resume _ => true | _ => false) = true := by decide
   split
   · rename_i R h; rw [h]
@@ -440,11 +460,62 @@ theorem C13_refuted_second_restart : ¬ C13_statement_second_restart := by
   intro h
   have hw := C13.witness3
   obtain ⟨R2, hR2, _⟩ := h C13.cfg3 C13.cfg3_wf C13.pol0 C13.pol0_free 0 C13.startEv C13.acts3a C13.acts3b 7 (fun _ => 7) 7 C13.R1
-    (by unfold C13.WellFormedLog; decide) (by decide) ⟨hw.1, hw.2.1, by rw [hw.2.2.1]; intro tm htm; cases htm⟩ C13.R1_eq
+    (by unfold C13.WellFormedLog; decide) (by decide) ⟨hw.1, hw.2.1, (by rw [hw.2.2.1]; intro tm htm; cases htm), (by unfold C13.NoRequirements; decide)⟩ C13.R1_eq
     (by intro t ht; rw [hw.2.2.2.2.2.1] at ht; simp only [List.mem_singleton] at ht; subst ht; decide) hw.2.2.2.2.2.2.1
   have := hw.2.2.2.2.2.2.2
   rw [hR2] at this
   cases this
+
+/-! ### refutation 4: `wait_for_event` requirements do not survive the store -/
+
+/-- the statement without the `NoRequirements` guard: replaying the persisted log rebuilds the
+serialised live state -/
+def C13_statement_requirements : Prop :=
+  ∀ (cfg : Cfg) (_ : cfg.WF) (pol : Policy) (_ : TimeFree pol) (now : Int) (e : Ev) (timeout : Option Nat)
+    (acts : List Act) (now0 : Int) (clk : Nat → Int),
+    C13.WellFormedLog (C13.live cfg pol now e timeout acts) →
+    ∃ rep, replayTicks cfg pol initState now0 clk (persistedTicks (C13.live cfg pol now e timeout acts).log) = some rep ∧
+      roundtrip cfg rep.st = roundtrip cfg (C13.live cfg pol now e timeout acts).st
+
+def C13.cfg4 : Cfg :=
+  { steps := [{ name := 0, accepted := [0], numWorkers := 1, hasRetry := false },
+              { name := 2, accepted := [5], numWorkers := 1, hasRetry := false }] }
+theorem C13.cfg4_wf : C13.cfg4.WF := by unfold Cfg.WF; decide
+def C13.wrong : Ev := { ty := 3, kind := .plain, uid := 1001, key := some 2 }
+
+/-- `b` waits for a response with `k == 1`; a response with `k == 2` arrives and is (rightly) not
+delivered; the process stops after that tick is persisted -/
+def C13.actsReq : List Act :=
+  [.drain, .workerDone 0 0 [.result (some C13.mid)], .drain, .drain, .drain,
+   .workerDone 2 0 [.addWaiter 1 none (some 1) none 3], .drain, .drain,
+   .external (.addEvent { ev := C13.wrong } none), .pull, .drain]
+
+theorem C13.witnessReq :
+    -- live: the waiter is unresolved, nothing is pending for `b`
+    ((C13.live C13.cfg4 C13.pol0 0 C13.startEv none C13.actsReq).st.workers 2).waiters.map (fun w => (w.req, w.resolved)) =
+        [(some 1, none)] ∧
+    pendingEvs ((roundtrip C13.cfg4 (C13.live C13.cfg4 C13.pol0 0 C13.startEv none C13.actsReq).st).workers 2) = [] ∧
+    -- replay of what the store holds: the waiter took the wrong response and `b` is re-run with it
+    (match replayTicks C13.cfg4 C13.pol0 initState 7 (fun _ => 7)
+        (persistedTicks (C13.live C13.cfg4 C13.pol0 0 C13.startEv none C13.actsReq).log) with
+      | some rep => (((roundtrip C13.cfg4 rep.st).workers 2).waiters.map (fun w => (w.hasReq, w.resolved)),
+                     pendingEvs ((roundtrip C13.cfg4 rep.st).workers 2))
+      | none => ([], [])) = ([(false, some C13.wrong)], [C13.mid]) := by
+  decide
+
+/-- **refuted**: a persisted `AddWaiter` comes back without its requirements (and without the
+`has_requirements` mark), so replay resolves the waiter with the first event of the awaited type in the
+log — here one the live run had rejected — and the resumed run hands it to the waiting step. -/
+theorem C13_refuted_requirements : ¬ C13_statement_requirements := by
+  intro h
+  obtain ⟨rep, h1, h2⟩ := h C13.cfg4 C13.cfg4_wf C13.pol0 C13.pol0_free 0 C13.startEv none C13.actsReq 7 (fun _ => 7)
+    (by unfold C13.WellFormedLog; decide)
+  have hw := C13.witnessReq
+  rw [h1] at hw
+  have := hw.2.2
+  simp only [Prod.mk.injEq] at this
+  rw [h2, hw.2.1] at this
+  exact absurd this.2 (by decide)
 
 /-! ## which handlers a starting server touches -/
 
@@ -601,6 +672,7 @@ def C13.actsQ : List Act :=
 
 example :
     (∀ t ∈ ticksOf (C13.live C13.cfg2 C13.pol0 0 C13.startEv none C13.actsQ).log, t.oneOutcome = true) ∧
+    (∀ t ∈ ticksOf (C13.live C13.cfg2 C13.pol0 0 C13.startEv none C13.actsQ).log, t.persist = t) ∧
     (C13.live C13.cfg2 C13.pol0 0 C13.startEv none C13.actsQ).outcome = none ∧
     (ticksOf (C13.live C13.cfg2 C13.pol0 0 C13.startEv none C13.actsQ).log).length = 5 ∧
     (C13.live C13.cfg2 C13.pol0 0 C13.startEv none C13.actsQ).st.isRunning = true ∧
@@ -612,6 +684,19 @@ example :
         7 (fun _ => 7) 9 none none with
       | .resume R => (R.running.map (·.ev.uid), (R.st.workers 2).queue.map (·.ev.uid))
       | _ => ([], [])) = ([10], [9]) := by
+  decide
+
+/-- the `NoRequirements` guard admits waits — only `requirements=` is excluded: a step suspended in
+`wait_for_event(T)` at the stop point is restored as a waiter of the resumed run -/
+example :
+    (∀ t ∈ ticksOf (C13.live C13.cfg4 C13.pol0 0 C13.startEv none
+        [.drain, .workerDone 0 0 [.result (some C13.mid)], .drain, .drain, .drain,
+         .workerDone 2 0 [.addWaiter 1 none none none 3], .drain, .drain]).log, t.persist = t) ∧
+    (match restartRun C13.cfg4 C13.pol0 none (persistedTicks (C13.live C13.cfg4 C13.pol0 0 C13.startEv none
+        [.drain, .workerDone 0 0 [.result (some C13.mid)], .drain, .drain, .drain,
+         .workerDone 2 0 [.addWaiter 1 none none none 3], .drain, .drain]).log) 7 (fun _ => 7) 9 none none with
+      | .resume R => (R.st.workers 2).waiters.map (fun w => (w.wid, w.waitTy, w.resolved))
+      | _ => []) = [(1, 3, none)] := by
   decide
 
 /-- finalize: a run that completed; the stop falls after the last tick was persisted -/
